@@ -10,10 +10,11 @@
 (*   labels      cli.common.strip_seq_file_ext / get_file_id vs Labels     *)
 (*   kmerspec    KmerSpec validation and JSON round trip                    *)
 (*   dmat        cluster.dump_dmat_csv -> load_dmat_csv     vs Csv          *)
+(*   stream      util.io.ClosingIterator / SequenceFile.parse vs StreamDef  *)
 (*   paramgroup  cli.common.check_params_group (exclusive / required)      *)
 (*   progress    meter protocol of the long-running calls   vs Progress     *)
 (***************************************************************************)
-EXTENDS Taxonomy, Jaccard, Labels, Csv, ProgressDef, Judge
+EXTENDS Taxonomy, Jaccard, Labels, Csv, ProgressDef, StreamDef, Judge
 
 \* ---- taxonomy operations
 Children(parent, t) == { c \in DOMAIN parent : parent[c] = t }
@@ -93,12 +94,19 @@ ExpectedAccess(sel, size, nq) ==
        <<[e |-> "get", idx |-> part, d |-> 0]>> \o [q \in 1..nq |-> [e |-> "inc", idx |-> <<>>, d |-> Len(part)]]])
 ClAccess(r) == << <<"chunk-access-protocol", r.events = ExpectedAccess(r.sel, r.size, r.nq)>> >>
 
+\* ---- stream lifecycle (StreamDef): observations of an operation sequence on a ClosingIterator / SequenceFile.parse()
+ClStream(r) ==
+  LET src == [n |-> r.n, fail |-> r.fail, after |-> r.after]
+      fin == Final(src, S0, r.ops).open IN
+  << <<"observations-follow-the-stream-lifecycle", Matches(r.obs, Run(src, S0, r.ops))>>,
+     <<"stream-closed-iff-lifecycle-says-so", fin = "unknown" \/ r.closed = (fin = "no")>> >>
+
 ClProgress(r) ==
   << <<"meter-protocol", Follows(r.total, r.events, r.returned)>>,
      <<"total-is-the-amount-of-work", r.total = r.expected_total>> >>
 
 Clauses(r) == CASE r.op = "progress" -> ClProgress(r) [] r.op = "access" -> ClAccess(r) [] r.op = "taxon" -> ClTaxon(r) [] r.op = "chunks" -> ClChunks(r) [] r.op = "generic" -> ClGeneric(r)
                 [] r.op = "dense" -> ClDense(r) [] r.op = "labels" -> ClLabels(r) [] r.op = "kmerspec" -> ClKmerSpec(r)
-                [] r.op = "dmat" -> ClDmat(r) [] r.op = "paramgroup" -> ClParamGroup(r)
+                [] r.op = "dmat" -> ClDmat(r) [] r.op = "paramgroup" -> ClParamGroup(r) [] r.op = "stream" -> ClStream(r)
 ASSUME PrintT(ToJson(Verdict(Recs, Clauses)))
 =============================================================================
